@@ -268,7 +268,7 @@ def _judge(case, run_case, detail, m, ref, r1, r2, t0, t1, col) -> None:
 
 
 def plan(tier: str, seed: int, scale: float = 1.0) -> List[Dict[str, Any]]:
-    per_tz, n = (8, 150) if tier == "quick" else (48, 220)
+    per_tz, n = (12, 150) if tier == "quick" else (48, 220)
     specs = []
     for ti, tz in enumerate(TZS):
         for i in range(per_tz):
